@@ -1,6 +1,7 @@
 import PyttbModel.Core.Rows
 import PyttbModel.Core.Dims
 import PyttbModel.Core.Arr
+import PyttbModel.Lemmas.EraseDups
 /-!
 Lemmas about `argsortInt` and `dimscheck` (`tt_dimscheck`).  Core Lean only.
 -/
@@ -80,9 +81,34 @@ theorem any_neg_ofNat (d : List Nat) : (d.map Int.ofNat).any (· < 0) = false :=
   obtain ⟨n, _, rfl⟩ := List.mem_map.1 hx
   simp
 
+theorem any_ge_ofNat (N : Nat) (d : List Nat) (hN : ∀ x ∈ d, x < N) :
+    (d.map Int.ofNat).any (fun x => decide ((N : Int) ≤ x)) = false := by
+  rw [List.any_eq_false]
+  intro x hx
+  obtain ⟨n, hn, rfl⟩ := List.mem_map.1 hx
+  have := hN n hn
+  simp; omega
+
+theorem nodup_map_ofNat (d : List Nat) (hd : d.Nodup) : (d.map Int.ofNat).Nodup := by
+  unfold List.Nodup
+  rw [List.pairwise_map]
+  exact hd.imp (fun h e => h (Int.ofNat.inj e))
+
+theorem dups_ofNat (d : List Nat) (hd : d.Nodup) :
+    ((d.map Int.ofNat).eraseDups.length != (d.map Int.ofNat).length) = false :=
+  eraseDups_length_bne_false _ (nodup_map_ofNat d hd)
+
+/-- a repetition-free list of numbers below `N` has at most `N` entries -/
+theorem length_le_of_nodup_lt (N : Nat) (d : List Nat) (hd : d.Nodup) (hN : ∀ x ∈ d, x < N) :
+    d.length ≤ N := by
+  have := hd.length_le_of_subset (l₂ := List.range N) (fun x hx => List.mem_range.2 (hN x hx))
+  simpa using this
+
 theorem dimscheck_dims_none (N : Nat) (M : Option Nat) (d : List Int) :
     dimscheck N M (some d) none =
       if d.any (· < 0) then .error .reject else
+      if d.any (fun x => decide ((N : Int) ≤ x)) then .error .reject else
+      if d.eraseDups.length != d.length then .error .reject else
       match M with
       | none => .ok ⟨(argsortInt d).map (fun k => (d.getD k 0).toNat), none⟩
       | some m =>
@@ -91,6 +117,23 @@ theorem dimscheck_dims_none (N : Nat) (M : Option Nat) (d : List Int) :
         else if d.length = m then .ok ⟨(argsortInt d).map (fun k => (d.getD k 0).toNat), some (argsortInt d)⟩
         else .ok ⟨(argsortInt d).map (fun k => (d.getD k 0).toNat), some ((argsortInt d).map (fun k => (d.getD k 0).toNat))⟩ := by
   unfold dimscheck
+  rfl
+
+/-- `dimscheck_dims_none` once the three validity tests on `dims` are known to pass -/
+theorem dimscheck_dims_valid (N : Nat) (M : Option Nat) (d : List Nat) (hd : d.Nodup)
+    (hN : ∀ x ∈ d, x < N) :
+    dimscheck N M (some (d.map Int.ofNat)) none =
+      match M with
+      | none => .ok ⟨(argsortInt (d.map Int.ofNat)).map (fun k => ((d.map Int.ofNat).getD k 0).toNat), none⟩
+      | some m =>
+        if m > N then .error .reject
+        else if m ≠ N ∧ m ≠ (d.map Int.ofNat).length then .error .reject
+        else if (d.map Int.ofNat).length = m then
+          .ok ⟨(argsortInt (d.map Int.ofNat)).map (fun k => ((d.map Int.ofNat).getD k 0).toNat),
+            some (argsortInt (d.map Int.ofNat))⟩
+        else .ok ⟨(argsortInt (d.map Int.ofNat)).map (fun k => ((d.map Int.ofNat).getD k 0).toNat),
+            some ((argsortInt (d.map Int.ofNat)).map (fun k => ((d.map Int.ofNat).getD k 0).toNat))⟩ := by
+  rw [dimscheck_dims_none, any_neg_ofNat, any_ge_ofNat N d hN, dups_ofNat d hd]
   rfl
 
 
@@ -110,19 +153,25 @@ theorem sdimsOf_perm (d : List Nat) : (sdimsOf d).Perm d := by
   have := gather_perm (d.map Int.ofNat) Int.toNat
   rwa [map_toNat_ofNat] at this
 
-theorem dimscheck_dims (N : Nat) (d : List Nat) :
+/-- without repetitions the sorted dims are strictly increasing -/
+theorem sdimsOf_strict (d : List Nat) (hd : d.Nodup) : (sdimsOf d).Pairwise (· < ·) := by
+  have hnd : (sdimsOf d).Nodup := (sdimsOf_perm d).nodup_iff.2 hd
+  exact (sdimsOf_sorted d).imp₂ (fun a b hle hne => Nat.lt_of_le_of_ne hle hne) hnd
+
+theorem dimscheck_dims (N : Nat) (d : List Nat) (hd : d.Nodup) (hN : ∀ x ∈ d, x < N) :
     ∃ sd, dimscheck N none (some (d.map Int.ofNat)) none = .ok ⟨sd, none⟩ ∧
-      sd.Pairwise (· ≤ ·) ∧ sd.Perm d := by
-  refine ⟨sdimsOf d, ?_, sdimsOf_sorted d, sdimsOf_perm d⟩
-  rw [dimscheck_dims_none, any_neg_ofNat]
+      sd.Pairwise (· < ·) ∧ sd.Perm d := by
+  refine ⟨sdimsOf d, ?_, sdimsOf_strict d hd, sdimsOf_perm d⟩
+  rw [dimscheck_dims_valid N none d hd hN]
   rfl
 
-theorem dimscheck_vidx_N (N : Nat) (d : List Nat) (hne : d.length ≠ N) :
+theorem dimscheck_vidx_N (N : Nat) (d : List Nat) (hne : d.length ≠ N) (hd : d.Nodup)
+    (hN : ∀ x ∈ d, x < N) :
     ∃ sd, dimscheck N (some N) (some (d.map Int.ofNat)) none = .ok ⟨sd, some sd⟩ ∧
-      sd.Pairwise (· ≤ ·) ∧ sd.Perm d := by
-  refine ⟨sdimsOf d, ?_, sdimsOf_sorted d, sdimsOf_perm d⟩
-  rw [dimscheck_dims_none, any_neg_ofNat]
-  simp only [Bool.false_eq_true, if_false, List.length_map]
+      sd.Pairwise (· < ·) ∧ sd.Perm d := by
+  refine ⟨sdimsOf d, ?_, sdimsOf_strict d hd, sdimsOf_perm d⟩
+  rw [dimscheck_dims_valid N (some N) d hd hN]
+  simp only [List.length_map]
   rw [if_neg (by omega), if_neg (by omega), if_neg hne]
   rfl
 
@@ -131,13 +180,14 @@ theorem getD_map_ofNat_toNat (d : List Nat) (k : Nat) :
   simp only [List.getD_eq_getElem?_getD, List.getElem?_map]
   cases d[k]? <;> simp
 
-theorem dimscheck_vidx_P (N : Nat) (d : List Nat) (hP : d.length ≤ N) :
+theorem dimscheck_vidx_P (N : Nat) (d : List Nat) (hd : d.Nodup) (hN : ∀ x ∈ d, x < N) :
     ∃ sd vi, dimscheck N (some d.length) (some (d.map Int.ofNat)) none = .ok ⟨sd, some vi⟩ ∧
       vi.Perm (List.range d.length) ∧ sd = vi.map (fun k => d.getD k 0) ∧
-      sd.Pairwise (· ≤ ·) := by
-  refine ⟨sdimsOf d, argsortInt (d.map Int.ofNat), ?_, ?_, ?_, sdimsOf_sorted d⟩
-  · rw [dimscheck_dims_none, any_neg_ofNat]
-    simp only [Bool.false_eq_true, if_false, List.length_map]
+      sd.Pairwise (· < ·) := by
+  have hP : d.length ≤ N := length_le_of_nodup_lt N d hd hN
+  refine ⟨sdimsOf d, argsortInt (d.map Int.ofNat), ?_, ?_, ?_, sdimsOf_strict d hd⟩
+  · rw [dimscheck_dims_valid N (some d.length) d hd hN]
+    simp only [List.length_map]
     rw [if_neg (by omega), if_neg (by omega), if_pos trivial]
     rfl
   · have := argsortInt_perm (d.map Int.ofNat)
@@ -165,18 +215,24 @@ theorem sdimsOf_of_sorted (l : List Nat) (h : l.Pairwise (· ≤ ·)) : sdimsOf 
     exact h.imp (fun hab => by simpa using hab)
 
 theorem dimscheck_none_none (N : Nat) :
-    dimscheck N none none none = .ok ⟨sdimsOf (List.range N), none⟩ := by
-  unfold dimscheck
-  simp only [any_neg_ofNat]
-  rfl
+    dimscheck N none none none = dimscheck N none (some ((List.range N).map Int.ofNat)) none := rfl
 
 theorem dimscheck_all (N : Nat) : dimscheck N none none none = .ok ⟨List.range N, none⟩ := by
-  rw [dimscheck_none_none, sdimsOf_of_sorted]
+  rw [dimscheck_none_none,
+    dimscheck_dims_valid N none (List.range N) List.nodup_range (fun x hx => List.mem_range.1 hx)]
+  show Except.ok (DimsCheck.mk (sdimsOf _) none) = _
+  rw [sdimsOf_of_sorted]
   exact List.pairwise_le_range
+
+theorem ite_swap4 {α : Type} (a b c d : Bool) (R X : α) :
+    (if a then R else if b then R else if c then R else if d then R else X) =
+      (if d then R else if a then R else if b then R else if c then R else X) := by
+  cases a <;> cases b <;> cases c <;> cases d <;> rfl
 
 theorem dimscheck_none_excl (N : Nat) (M : Option Nat) (e : List Int) :
     dimscheck N M none (some e) =
       if e.all (fun x => decide (0 ≤ x) && decide (x < (N : Int))) then
+        if e.eraseDups.length != e.length then .error .reject else
         dimscheck N M (some (((List.range N).filter (fun (k : Nat) => !e.contains (Int.ofNat k))).map
           (fun (k : Nat) => Int.ofNat k))) none
       else .error .reject := by
@@ -184,7 +240,7 @@ theorem dimscheck_none_excl (N : Nat) (M : Option Nat) (e : List Int) :
   · rw [if_pos h, dimscheck_dims_none]
     unfold dimscheck
     simp only [h, if_true]
-    rfl
+    exact ite_swap4 _ _ _ _ _ _
   · rw [if_neg h]
     unfold dimscheck
     simp only [h]
@@ -202,7 +258,7 @@ theorem contains_map_ofNat (e : List Nat) (k : Nat) :
     · have : Int.ofNat k ≠ Int.ofNat a := fun hh => h (Int.ofNat.inj hh)
       rw [beq_eq_false_iff_ne.2 this, beq_eq_false_iff_ne.2 h]
 
-theorem dimscheck_exclude (N : Nat) (e : List Nat) (he : ∀ x ∈ e, x < N) :
+theorem dimscheck_exclude (N : Nat) (e : List Nat) (he : ∀ x ∈ e, x < N) (hn : e.Nodup) :
     dimscheck N none none (some (e.map Int.ofNat)) =
       .ok ⟨(List.range N).filter (fun k => !e.contains k), none⟩ := by
   rw [dimscheck_none_excl]
@@ -212,29 +268,25 @@ theorem dimscheck_exclude (N : Nat) (e : List Nat) (he : ∀ x ∈ e, x < N) :
     obtain ⟨n, hn, rfl⟩ := List.mem_map.1 hx
     have := he n hn
     simp; omega
-  rw [if_pos hall]
-  simp only [contains_map_ofNat]
-  rw [dimscheck_dims_none, any_neg_ofNat]
-  simp only [Bool.false_eq_true, if_false]
+  rw [if_pos hall, dups_ofNat e hn]
+  simp only [contains_map_ofNat, Bool.false_eq_true, if_false]
+  rw [dimscheck_dims_valid N none _ (List.nodup_range.filter _)
+    (fun x hx => List.mem_range.1 (List.mem_filter.1 hx).1)]
   show Except.ok (DimsCheck.mk (sdimsOf _) none) = _
   rw [sdimsOf_of_sorted]
   exact List.Pairwise.filter _ List.pairwise_le_range
 
 
-theorem any_neg_false_of_nonneg (d : List Int) (h : ∀ x ∈ d, 0 ≤ x) : d.any (· < 0) = false := by
-  rw [List.any_eq_false]
-  intro x hx
-  have := h x hx
-  simp; omega
-
 theorem dimscheck_rejects (N : Nat) (M : Option Nat) (d e : List Int) :
     dimscheck N M (some d) (some e) = .error .reject ∧
     ((∃ x ∈ e, x < 0 ∨ (N : Int) ≤ x) → dimscheck N M none (some e) = .error .reject) ∧
     ((∃ x ∈ d, x < 0) → dimscheck N M (some d) none = .error .reject) ∧
-    (∀ m, N < m → (∀ x ∈ d, 0 ≤ x) → dimscheck N (some m) (some d) none = .error .reject) ∧
-    (∀ m, m ≠ N → m ≠ d.length → (∀ x ∈ d, 0 ≤ x) →
-        dimscheck N (some m) (some d) none = .error .reject) := by
-  refine ⟨rfl, ?_, ?_, ?_, ?_⟩
+    ((∃ x ∈ d, (N : Int) ≤ x) → dimscheck N M (some d) none = .error .reject) ∧
+    (¬ d.Nodup → dimscheck N M (some d) none = .error .reject) ∧
+    (¬ e.Nodup → dimscheck N M none (some e) = .error .reject) ∧
+    (∀ m, N < m → dimscheck N (some m) (some d) none = .error .reject) ∧
+    (∀ m, m ≠ N → m ≠ d.length → dimscheck N (some m) (some d) none = .error .reject) := by
+  refine ⟨rfl, ?_, ?_, ?_, ?_, ?_, ?_, ?_⟩
   · rintro ⟨x, hx, hbad⟩
     rw [dimscheck_none_excl, if_neg]
     intro hall
@@ -246,16 +298,43 @@ theorem dimscheck_rejects (N : Nat) (M : Option Nat) (d e : List Int) :
     rw [dimscheck_dims_none, if_pos]
     rw [List.any_eq_true]
     exact ⟨x, hx, by simpa using hneg⟩
-  · intro m hm hd
-    rw [dimscheck_dims_none, any_neg_false_of_nonneg d hd]
-    simp only [Bool.false_eq_true, if_false]
-    rw [if_pos hm]
-  · intro m h1 h2 hd
-    rw [dimscheck_dims_none, any_neg_false_of_nonneg d hd]
-    simp only [Bool.false_eq_true, if_false]
-    by_cases hm : m > N
-    · rw [if_pos hm]
-    · rw [if_neg hm, if_pos ⟨h1, h2⟩]
+  · rintro ⟨x, hx, hge⟩
+    rw [dimscheck_dims_none]
+    have : d.any (fun x => decide ((N : Int) ≤ x)) = true := by
+      rw [List.any_eq_true]
+      exact ⟨x, hx, by simpa using hge⟩
+    rw [this]
+    split <;> rfl
+  · intro hnd
+    rw [dimscheck_dims_none, eraseDups_length_bne_true d hnd]
+    split
+    · rfl
+    · split <;> rfl
+  · intro hnd
+    rw [dimscheck_none_excl, eraseDups_length_bne_true e hnd]
+    split <;> rfl
+  · intro m hm
+    rw [dimscheck_dims_none]
+    split
+    · rfl
+    · split
+      · rfl
+      · split
+        · rfl
+        · simp only []
+          rw [if_pos hm]
+  · intro m h1 h2
+    rw [dimscheck_dims_none]
+    split
+    · rfl
+    · split
+      · rfl
+      · split
+        · rfl
+        · simp only []
+          by_cases hm : m > N
+          · rw [if_pos hm]
+          · rw [if_neg hm, if_pos ⟨h1, h2⟩]
 
 /-- Non-vacuity witness used by `Props/C17.lean`.  `decide` cannot evaluate `List.mergeSort`
 (well-founded recursion), so the sort is unfolded by `simp`. -/
@@ -263,7 +342,10 @@ theorem dimscheck_example :
     dimscheck 4 (some 2) (some [3, 1]) none = .ok ⟨[1, 3], some [1, 0]⟩ := by
   have h : argsortInt [3, 1] = [1, 0] := by
     simp [argsortInt, List.range, List.range.loop, List.mergeSort, List.MergeSort.Internal.splitInTwo]
-  rw [dimscheck_dims_none]
+  have := dimscheck_dims_valid 4 (some 2) [3, 1] (by decide) (by decide)
+  simp only [List.map_cons, List.map_nil] at this
+  rw [show ([Int.ofNat 3, Int.ofNat 1] : List Int) = [3, 1] from rfl] at this
+  rw [this]
   simp [h]
 
 end Pyttb
